@@ -64,6 +64,8 @@ class Den:
                 return ('seq', self.slice_of(e['args'][0]))
             if 'IntoIterator for &' in r and 'alloc::vec' in r:
                 return ('seq', ('vec', self.of(e['args'][0])))
+            if is_call(e, ITER, 'copied') or is_call(e, ITER, 'cloned'):
+                return self.iter_of(e['args'][0])        # the same elements, by value
             if is_call(e, ITER, 'enumerate'):
                 return ('enumerate', self.iter_of(e['args'][0]))
             if is_call(e, ITER, 'zip'):
@@ -94,11 +96,13 @@ class Den:
         if t[0] == 'ret':
             e = self.ev[t[1]]
             r = rp(e)
-            if r in ('core::slice::raw::from_raw_parts', 'core::slice::raw::from_raw_parts_mut'):
+            if r in ('core::slice::raw::from_raw_parts', 'core::slice::raw::from_raw_parts_mut', 'core::ptr::slice_from_raw_parts', 'core::ptr::slice_from_raw_parts_mut'):
                 a0, a1 = strip_epoch(e['args'][0]), strip_epoch(e['args'][1])
                 # Input::buffers(): from_raw_parts(input.buffers_ptr, input.buffers_len)
                 if a0[0] == 'field' and a1[0] == 'field' and a0[1] == a1[1] and a0[2] == 0 and a1[2] == 1 and a0[1][0] == 'deref':
                     return ('buffers', self.of(a0[1][1]))
+                if a0[0] == 'field' and a1[0] == 'field' and a0[1] == a1[1] and a0[2] == 0 and a1[2] == 1 and a0[1][0] == 'index':
+                    return ('buffers', self.of(a0[1]))       # the Input named by a slice pattern / constant index
                 return ('raw', a0, a1)
             if r == 'dasp_graph::node::Input::buffers':
                 return ('buffers', self.of(e['args'][0]))
@@ -147,6 +151,9 @@ class Den:
             return self.project(base, t[2])
         if t[0] == 'int':
             return t
+        if t[0] == 'index' and t[2][0] == 'cidx':
+            # element n of a slice pattern `[a, b, ..]` (counted from the front)
+            return ('get', self.slice_of(t[1]), ('int', t[2][1], 'usize')) if not t[2][2] else ('get-from-end', self.slice_of(t[1]), t[2][1])
         if t[0] == 'index':
             return ('get', self.slice_of(t[1]), self.of(t[2]))
         if t[0] == 'ret':
